@@ -95,6 +95,12 @@ PatchNilA(s, v0, j, addl) ==
 \* anonymous Go type without JSON methods (Go's default encoding on both ways)
 KF == IF Known(Ev.type) /\ S(Ev.type).k = "datetime" THEN "codec-named-datetime"
       ELSE IF Known(Ev.type) /\ S(Ev.type).k = "object" /\ S(Ev.type).inlineAddl THEN "codec-addl-inline-composite"
+      \* known finding: an allOf member with additionalProperties that is decoded before another member also collects
+      \* the later members' keys as its own extras, and they are written twice on encoding (addlNotLast: the harness
+      \* marks such an allOf); the selector covers the accepted document / the encodable value only - a valid document
+      \* that is REFUSED is not this finding
+      ELSE IF Known(Ev.type) /\ S(Ev.type).k = "object" /\ S(Ev.type).addlNotLast /\ Ev.ev = "Dec" /\ Ev.mut = "none" /\ Ev.decOK /\ Ev.panic = "" THEN "codec-allof-addl-not-last"
+      ELSE IF Known(Ev.type) /\ S(Ev.type).k = "object" /\ S(Ev.type).addlNotLast /\ Ev.ev = "Enc" /\ Ev.encOK /\ Ev.panic = "" THEN "codec-allof-addl-not-last"
       \* known finding: a date-time string that sits in an array or is a value of additionalProperties is left to
       \* encoding/json and time.Time's own UnmarshalJSON, which does not decode JSON escapes: the valid document is refused
       \* when that string is spelled with \u escapes (escTime: the harness escaped every string of the document, the
